@@ -101,6 +101,8 @@ type Config struct {
 	// are the opposite of a restrictive configuration (every protocol, every codec, every
 	// compression). Options of one service must not leak into another.
 	Decoy bool
+	// MoreServices registers further services (same handler) next to the one under test.
+	MoreServices func(handler http.Handler) []*vanguard.Service
 }
 
 // FormToProtocol maps a server-side wire form to the vanguard protocol constant.
@@ -161,6 +163,9 @@ func Build(cfg Config, handler http.Handler) (*vanguard.Transcoder, error) {
 		services = append(services, vanguard.NewServiceWithSchema(decoyService(), handler,
 			vanguard.WithTargetProtocols(vanguard.ProtocolConnect, vanguard.ProtocolGRPC, vanguard.ProtocolGRPCWeb),
 			vanguard.WithTargetCodecs("json", "proto", "alt"), vanguard.WithTargetCompression("gzip", "rev"), vanguard.WithMaxMessageBufferBytes(1<<30), vanguard.WithMaxGetURLBytes(1<<20)))
+	}
+	if cfg.MoreServices != nil {
+		services = append(services, cfg.MoreServices(handler)...)
 	}
 	return vanguard.NewTranscoder(services, to...)
 }
